@@ -90,15 +90,17 @@ func C02(p *an.Prog, r *an.Report) {
 			continue
 		}
 		st := wp.T.Underlying().(*types.Struct)
-		have := map[string]bool{}
-		for i := 0; i < st.NumFields(); i++ {
-			have[st.Field(i).Name()] = true
-		}
-		missing := false
-		for _, f := range spec {
-			if !have[f] {
-				missing = true
+		alias, missing := specFieldAlias(st, spec)
+		if !missing && len(alias) > 0 {
+			// a field of the table was renamed in the library: continue under its new name
+			eff := make([]string, len(spec))
+			for i, f := range spec {
+				eff[i] = f
+				if a, ok := alias[f]; ok {
+					eff[i] = a
+				}
 			}
+			spec = eff
 		}
 		if missing {
 			r.Ob("C02.L1", wp.key+"/table", p.FnPos(wp.ser), an.Undecided, "the layout table names fields this structure no longer has; the table must be brought in line before the order can be decided", "table: "+strings.Join(spec, ","))
@@ -142,9 +144,18 @@ func C02(p *an.Prog, r *an.Report) {
 		}
 		_, sMarks := topFields(sLeaves, 0, true)
 		st := wp.T.Underlying().(*types.Struct)
+		alias, _ := specFieldAlias(st, specLayouts[wp.key])
+		tableName := map[string]string{}
+		for t, a := range alias {
+			tableName[a] = t
+		}
 		for i := 0; i < st.NumFields(); i++ {
 			f := st.Field(i).Name()
-			want, ok := specWidths[wp.key+"."+f]
+			tf := f
+			if t, ok := tableName[f]; ok {
+				tf = t
+			}
+			want, ok := specWidths[wp.key+"."+tf]
 			if !ok {
 				continue
 			}
@@ -266,4 +277,51 @@ func c02SigTypeSource(p *an.Prog, r *an.Report, rule string) {
 	if n < 4 {
 		r.Fail(rule+": only %d signature construction sites found in the offline-capable structures (expected at least 4)", n)
 	}
+}
+
+
+// specFieldAlias matches the field names of the layout table with the struct. A table name the
+// struct no longer has is matched to the one struct field that is not named by the table and is
+// declared between the table's neighbouring fields (an unexported field renamed in place).
+// missing=true when some table field cannot be matched unambiguously.
+func specFieldAlias(st *types.Struct, spec []string) (alias map[string]string, missing bool) {
+	idx := map[string]int{}
+	for i := 0; i < st.NumFields(); i++ {
+		idx[st.Field(i).Name()] = i
+	}
+	inSpec := map[string]bool{}
+	for _, f := range spec {
+		inSpec[f] = true
+	}
+	alias = map[string]string{}
+	for i, f := range spec {
+		if _, ok := idx[f]; ok {
+			continue
+		}
+		lo, hi := -1, st.NumFields()
+		for j := i - 1; j >= 0; j-- {
+			if k, ok := idx[spec[j]]; ok {
+				lo = k
+				break
+			}
+		}
+		for j := i + 1; j < len(spec); j++ {
+			if k, ok := idx[spec[j]]; ok {
+				hi = k
+				break
+			}
+		}
+		var cands []string
+		for k := lo + 1; k < hi; k++ {
+			n := st.Field(k).Name()
+			if !inSpec[n] {
+				cands = append(cands, n)
+			}
+		}
+		if len(cands) != 1 {
+			return nil, true
+		}
+		alias[f] = cands[0]
+	}
+	return alias, false
 }
